@@ -86,6 +86,10 @@ structure FCfg where
   rr : Bool
   /-- features.go: the masks of a cached feature are tested again when it is selected -/
   rt : Bool
+  /-- features.go: when nothing is left to select, a required feature of the list that was
+  skipped when the list was read (its masks did not hold then) but could be negotiated now
+  makes the list an error ("features advertised out of order") instead of `Ready` -/
+  sk : Bool
   others : List Feature
   deriving Repr
 
@@ -270,6 +274,14 @@ def parseItems (cfg : FCfg) (state : Mask) : List Item → Bool → List Cached 
         parseItems cfg state rest (req || it.req) (cacheInsert cache ⟨it.id, it.req, f⟩)
       else parseItems cfg state rest (req || it.req) cache
 
+/-- the configured features of the list that were not cached because their masks did not hold
+when the list was read (`streamFeaturesList.skipped`) -/
+def skippedItems (cfg : FCfg) (state : Mask) (items : List Item) : List Cached :=
+  items.filterMap fun it =>
+    match lookup cfg it.id with
+    | some f => if eligible state f.nec f.proh then none else some ⟨it.id, it.req, f⟩
+    | none => none
+
 /-! ### features.go: selecting and negotiating -/
 
 def candidates (cfg : FCfg) (cache : List Cached) (s : Sess) : List Cached :=
@@ -327,10 +339,18 @@ attempt is due, else what the selection rule allows among the cached features -/
 def pickSet (cfg : FCfg) (doTLS : Bool) (cache : List Cached) (s : Sess) : List Cached :=
   if doTLS then [⟨0, true, startTLS⟩] else allowed (candidates cfg cache s)
 
+/-- nothing (more) to select: the list is done — unless a required feature that was skipped when
+the list was read has become negotiable in the meantime -/
+def finishList (cfg : FCfg) (skipped : List Cached) (s : Sess) : Res FOut :=
+  if cfg.sk && skipped.any (fun c =>
+      c.req && !(s.negotiated.contains c.id) && c.f.negotiable && eligible s.state c.f.nec c.f.proh) then
+    .stop (.err .proto) s
+  else .ok ⟨Ready, .none⟩ s
+
 /-- the selection loop of `negotiateFeatures`; every iteration consumes one oracle entry -/
-def select (cfg : FCfg) (doTLS listReq : Bool) (cache : List Cached) : List (Nat × NegRes) → Sess → Res FOut
+def select (cfg : FCfg) (doTLS listReq : Bool) (cache skipped : List Cached) : List (Nat × NegRes) → Sess → Res FOut
   | orc, s =>
-    if (pickSet cfg doTLS cache s).isEmpty then .ok ⟨Ready, .none⟩ s
+    if (pickSet cfg doTLS cache s).isEmpty then finishList cfg skipped s
     else
       match orc with
       | [] => .stop .oracle s
@@ -344,7 +364,7 @@ def select (cfg : FCfg) (doTLS listReq : Bool) (cache : List Cached) : List (Nat
             let s2 := { s1 with state := s1.state ||| mask, negotiated := c.id :: s1.negotiated }
             if rw != .none || c.req then
               .ok ⟨if !listReq && (cfg.rr || rw == .none) then mask ||| Ready else mask, rw⟩ s2
-            else select cfg doTLS listReq cache orc' s2
+            else select cfg doTLS listReq cache skipped orc' s2
 
 /-- initiator half of `negotiateFeatures` -/
 def negotiateFeatures (cfg : FCfg) (first : Bool) (s : Sess) : Res FOut :=
@@ -360,7 +380,7 @@ def negotiateFeatures (cfg : FCfg) (first : Bool) (s : Sess) : Res FOut :=
         let doTLS := first && !(cache.any fun c => c.id == 0) && !(has s1.state Secure)
         if !doTLS && items.isEmpty then .ok ⟨Ready, .none⟩ s1
         else if !doTLS && cache.isEmpty then .stop (.err .proto) s1
-        else select cfg doTLS req cache s1.oracle s1
+        else select cfg doTLS req cache (skippedItems cfg s1.state items) s1.oracle s1
     | .streamErr => .stop (.err .streamerr) s1
     | .malformed => .stop (.err .read) s1
     | _ => .stop (.err .proto) s1
